@@ -277,6 +277,16 @@ def free_port():
 
 
 def binary(ctx):
+    """Up to three attempts: on a busy machine a port picked as free may be taken before fabio binds it."""
+    why = ""
+    for _ in range(3):
+        why = binary_once(ctx)
+        if not why:
+            return
+    ctx.inconclusive(why)
+
+
+def binary_once(ctx):
     gobin, genv = vf.go_tool()
     exe = os.path.join(ctx.tmp, "fabio-c18")
     b = subprocess.run([gobin, "build", "-o", exe, "."], cwd=vf.REPO, env=genv, capture_output=True, text=True, timeout=600)
@@ -332,8 +342,7 @@ def binary(ctx):
                     break
                 time.sleep(0.05)
         if not ok:
-            ctx.inconclusive("binary part: fabio did not come up (rc=%s): %s" % (p.poll(), open(log.name).read()[-1500:]))
-            return
+            return "binary part: fabio did not come up (rc=%s): %s" % (p.poll(), open(log.name).read()[-1500:])
         t = socket.create_connection(("127.0.0.1", tp), timeout=2)      # a tunnel that never ends either
         t.sendall(b"GET /tunnel HTTP/1.1\r\nHost: x\r\n\r\n")
         t.settimeout(5)
